@@ -201,9 +201,16 @@ class Check:
             shutil.copy(os.path.join(REPO, "go.sum"), os.path.join(src, "go.sum"))
         except OSError:
             pass
-        rc, out, err = run(["go", "build", "-tags", "verif", "-o", HARNESS_BIN, "."], cwd=src, timeout=900)
+        # statement-coverage counters for every package of the repository (evidence: which code the suites reached)
+        rc, out, err = run(["go", "build", "-tags", "verif", "-cover", "-covermode=atomic",
+                            "-coverpkg=waspharness,github.com/vx-labs/wasp/v4/...", "-o", HARNESS_BIN, "."], cwd=src, timeout=900)
+        if rc != 0:
+            rc, out, err = run(["go", "build", "-tags", "verif", "-o", HARNESS_BIN, "."], cwd=src, timeout=900)
         ob.ok = rc == 0
         self.harness_ok = ob.ok
+        self.covdir = os.path.join(BUILD, "cov", f"{self.pid}-{self.tier}-{self.seed}")
+        shutil.rmtree(self.covdir, ignore_errors=True)
+        os.makedirs(self.covdir, exist_ok=True)
         if rc != 0:
             ob.detail = err[-600:]
             self.broken.append((ob.name, "the harness no longer builds against the working tree: " + err[-400:]))
@@ -327,7 +334,9 @@ class Check:
             resource.setrlimit(resource.RLIMIT_AS, (lim, lim))
         try:
             p = subprocess.run([binary, domain] + list(args), input=data, stdout=subprocess.PIPE, stderr=subprocess.PIPE,
-                               text=True, timeout=timeout, env=dict(os.environ, GOMEMLIMIT="4GiB", **(env or {})), preexec_fn=limits)
+                               text=True, timeout=timeout,
+                               env=dict(os.environ, GOMEMLIMIT="4GiB", **({"GOCOVERDIR": self.covdir} if getattr(self, "covdir", None) and binary == HARNESS_BIN else {}),
+                                        **(env or {})), preexec_fn=limits)
         except subprocess.TimeoutExpired as e:
             out = e.stdout.decode() if isinstance(e.stdout, bytes) else (e.stdout or "")
             return out.split("\n")[:-1] if out else [], "timeout"
@@ -438,6 +447,47 @@ class Check:
         path = self._write_replay(suite, rule, msg, s, e, impl, model)
         self.violations.append(Violation(rule, msg, path))
 
+    def _code_coverage(self):
+        """statement coverage of the property's anchor files reached by this run's suites (real code, in process)"""
+        covdir = getattr(self, "covdir", None)
+        if not covdir or not os.path.isdir(covdir) or not os.listdir(covdir):
+            return None
+        prof = os.path.join(covdir, "profile.txt")
+        rc, out, err = run(["go", "tool", "covdata", "textfmt", "-i=" + covdir, "-o=" + prof], cwd=os.path.join(VERIF, "harness"), timeout=300)
+        if rc != 0 or not os.path.exists(prof):
+            return None
+        anchors = []
+        try:
+            for l in open(os.path.join(VERIF, "properties.jsonl")):
+                d = json.loads(l)
+                if d["id"] == self.pid:
+                    anchors = d.get("anchors", {}).get("files", [])
+        except Exception:
+            pass
+        blocks = {}
+        for line in open(prof):
+            m = re.match(r"github.com/vx-labs/wasp/v4/(\S+?):(\S+) (\d+) (\d+)$", line.strip())
+            if not m:
+                continue
+            f, pos, n, cnt = m.group(1), m.group(2), int(m.group(3)), int(m.group(4))
+            key = (f, pos)
+            old = blocks.get(key, (n, 0))
+            blocks[key] = (n, max(old[1], cnt))
+        per = {}
+        for (f, pos), (n, cnt) in blocks.items():
+            t = per.setdefault(f, [0, 0])
+            t[0] += n
+            t[1] += n if cnt > 0 else 0
+        res = {}
+        for f in anchors:
+            if f in per:
+                tot, cvd = per[f]
+                res[f] = {"statements": tot, "covered": cvd, "pct": round(100.0 * cvd / tot, 1) if tot else 100.0}
+            else:
+                res[f] = {"statements": 0, "covered": 0, "pct": None, "note": "not linked into the harness or no statements"}
+        shutil.rmtree(covdir, ignore_errors=True)
+        return res
+
     # ---------- verdict ----------
     def add_fact(self, name, ok, detail=""):
         ob = Obligation("fact", name)
@@ -467,6 +517,9 @@ class Check:
             "exhaustive": any(s.get("exhaustive") for s in self.suites_run),
             "notes": self.notes,
         }
+        code_cov = self._code_coverage()
+        if code_cov:
+            cov["go_statement_coverage"] = code_cov
         if extra:
             cov.update(extra)
         ev = {"property_id": self.pid, "tier": self.tier, "seed": self.seed, "level": level, "coverage": cov,
